@@ -85,6 +85,50 @@ def determinism_sample(check, master, scratch, n, workers, tier):
     return diffs, len(seeds)
 
 
+def sensitivity(args, scratch):
+    """apply each hand-written mutant to a scratch copy of the working tree; the owning check must exit 1"""
+    import subprocess
+    from checks.mutants import MUTANTS
+
+    only = args.check_id
+    missed = []
+    caught = 0
+    for mid, owner, rel, old, new in MUTANTS:
+        if only and only not in (owner, mid):
+            continue
+        try:
+            plugin(owner)
+        except ImportError:
+            continue
+        tree = os.path.join(scratch, "tree-" + mid)
+        subprocess.run(["rsync", "-a", "--exclude", ".git", "--exclude", "__pycache__", orch.repo_path() + "/", tree + "/"], check=True)
+        path = os.path.join(tree, rel)
+        with open(path) as f:
+            src = f.read()
+        if old not in src:
+            print(f"sensitivity {mid}: anchor text not found in {rel} (tree changed?) -- skipped")
+            shutil.rmtree(tree, ignore_errors=True)
+            continue
+        with open(path, "w") as f:
+            f.write(src.replace(old, new, 1))
+        env = dict(os.environ, POLAR_REPO=tree, VERIF_REPLAY_DIR=os.path.join(scratch, "replays-" + mid))
+        t = time.time()
+        p = subprocess.run([sys.executable, os.path.abspath(__file__), owner, "--tier", "quick", "--no-evidence"] +
+                           (["--runs", str(args.runs)] if args.runs else []),
+                           env=env, stdout=subprocess.PIPE, stderr=subprocess.STDOUT, text=True)
+        vio = [l for l in p.stdout.splitlines() if l.startswith("VIOLATION")]
+        ok = p.returncode == 1 and vio
+        print(f"sensitivity {mid} ({owner}): exit={p.returncode} {'CAUGHT' if ok else 'MISSED'} in {time.time() - t:.0f}s")
+        if ok:
+            caught += 1
+        else:
+            missed.append(mid)
+            print(p.stdout[-1500:])
+        shutil.rmtree(tree, ignore_errors=True)
+    print(f"sensitivity: caught {caught}, missed {missed}")
+    return 0 if not missed else 2
+
+
 def main():
     ap = argparse.ArgumentParser()
     ap.add_argument("check")
@@ -126,6 +170,9 @@ def main():
             if rc:
                 print("HARNESS-ERROR determinism self-test failed")
             return rc
+
+        if args.check == "selftest-sensitivity":
+            return sensitivity(args, scratch)
 
         check = args.check.upper()
         if check not in CHECKS:
@@ -173,7 +220,8 @@ def main():
 
         rc = 0
         replay_paths = []
-        os.makedirs(os.path.join(VERIF, "replays"), exist_ok=True)
+        replay_dir = os.environ.get("VERIF_REPLAY_DIR", os.path.join(VERIF, "replays"))
+        os.makedirs(replay_dir, exist_ok=True)
         seen_classes = set()
         for v in new_viols:
             cls = mod.vclass(v)
@@ -197,7 +245,7 @@ def main():
                 print(f"HARNESS-ERROR violation of run seed {v.get('seed')} did not reproduce in a fresh interpreter")
                 rc = 2
                 continue
-            path = os.path.join(VERIF, "replays", f"{check}-{master}-{v.get('seed')}.json")
+            path = os.path.join(replay_dir, f"{check}-{master}-{v.get('seed')}.json")
             orch.write_json(path, {"property": check, "verif_seed": master, "run_seed": v.get("seed"), "hashseed": hseed, "class": cls,
                                    "minimised": minimised, "case": final_case, "extra": {"tier": tier},
                                    "violation": {k: v.get(k) for k in ("problems", "text", "first_law_mismatch", "detail", "notes")}})
